@@ -27,15 +27,19 @@ computes a sufficient amount, Theorems/C07 proves it sufficient).
                               (tachys/src/reactive_graph/suspense.rs, leptos/src/suspense_component.rs):
                               `StreamBuilder::new(id)`, render, `finish().take_chunks()`
 * `pushStart`, `pushEnd`   — `OooChunk::push_start`, `OooChunk::push_end_with_nonce` (the inline script text verbatim)
-* `pollNext`               — `impl Stream for StreamBuilder :: poll_next`, branch for branch:
+* `pollStep` / `pollNext`  — `impl Stream for StreamBuilder :: poll_next`, branch for branch.  Every `self.poll_next(cx)` of
+                              the source is a tail call, so one activation is `pollStep` (`Step.ret` = return,
+                              `Step.cont` = call again on the new state; `oooReadyStep` = the `Poll::Ready(OooChunk{..})` arm,
+                              `yieldStep` = "yield `sync_buf` if non-empty") and `pollNext fuel` iterates it:
     - `pending` set: poll it; ready ⇒ `for chunk in chunks.into_iter().rev() { chunks.push_front(chunk) }`
       (`pushFrontAll`), recurse;
     - `chunks.pop_front()`:
         `None`      ⇒ `pending_ooo.pop_front()`: ready ⇒ look for the opening marker **in `sync_buf`**:
                         found ⇒ in-place replacement (`spliceInPlace`: `.rev()` iteration, sync chunks appended in
-                        that (reversed) order, other chunks `held.push_front` then `chunks.push_front` one by one);
+                        that (reversed) order, other chunks `held.push_front` then `chunks.push_front` one by one;
+                        `replace` is NOT consulted here — F-C07-5);
                         not found ⇒ `push_start`, `.rev()` iteration appending sync chunks / `push_front` of the
-                        others (`spliceTemplate`), `push_end_with_nonce`; recurse.
+                        others (`spliceTemplate`; loop body of both = `spliceFn`), `push_end_with_nonce`; recurse.
                         not ready ⇒ `push_back` (rotation), yield `sync_buf` if non-empty else `Pending`;
                         no pending ooo ⇒ yield `sync_buf` if non-empty else `Ready(None)`;
         `Sync(v)`   ⇒ append, then the coalescing `loop` (`coalesce`: stops at an `Async` which is pushed back,
@@ -47,7 +51,8 @@ computes a sufficient amount, Theorems/C07 proves it sufficient).
                               `with_buf`, `async` = `push_async`, `fallback`+`ooo` = `push_fallback` +
                               `push_async_out_of_order(_with_nonce)`, `nextId` = `next_id`,
                               `sub` = leptos/src/error_boundary.rs (`StreamBuilder::new(buf.clone_id())`, render children,
-                              `buf.append(new_buf)`), `ite` = `fut.now_or_never()` in `Suspend::to_html_async_with_buf`.
+                              `buf.append(new_buf)`), `ite` = `fut.now_or_never()` in `Suspend::to_html_async_with_buf`,
+                              `finish` = `*buf = mem::take(buf).finish()` in the middle of a program (API use only).
 * `View`, `compile`        — the view grammar of the correspondence harness and the rules of
                               `to_html_async_with_buf::<OUT_OF_ORDER>` for it:
                               element/tuple/`Vec` (tachys/src/html/element/mod.rs, view/tuples.rs, view/iterators.rs) are
@@ -152,6 +157,7 @@ inductive Op where
   | nextId
   | sub (body : List Op)
   | ite (fut : Fut) (t e : List Op)
+  | finish
   deriving Repr, Inhabited
 
 structure PendAsync where
@@ -256,6 +262,7 @@ def execOp (env : Env) : Op → Builder → Builder
   | .nextId, b => b.nextId
   | .sub body, b => b.append (execOps env body (Builder.new b.id))
   | .ite fut t e, b => if fut.ready env env.now then execOps env t b else execOps env e b
+  | .finish, b => b.finish
 def execOps (env : Env) : List Op → Builder → Builder
   | [], b => b
   | o :: os, b => execOps env os (execOp env o b)
@@ -377,6 +384,7 @@ def opSize : Op → Nat
   | .nextId => 1
   | .sub body => 1 + opsSize body
   | .ite _ t e => 1 + opsSize t + opsSize e
+  | .finish => 1
 def opsSize : List Op → Nat
   | [] => 0
   | o :: os => opSize o + opsSize os
@@ -509,6 +517,7 @@ def docOp : Op → Str
   | .nextId => []
   | .sub body => docOps body
   | .ite _ t _ => docOps t
+  | .finish => []
 def docOps : List Op → Str
   | [] => []
   | o :: os => docOp o ++ docOps os
@@ -525,6 +534,7 @@ def oooDocOp : Op → Str
   | .nextId => []
   | .sub body => oooDocOps body
   | .ite _ t _ => oooDocOps t
+  | .finish => []
 def oooDocOps : List Op → Str
   | [] => []
   | .fallback s :: .ooo _ replace body _ :: os => (if replace then oooDocOps body else s) ++ oooDocOps os
